@@ -342,6 +342,15 @@ def run_check(mod, prop, tier, seed, replay_path=None):
         # 2. build
         target = getattr(mod, "LEAN_TARGET", f"CspuzModel.Properties.{prop}")
         ok, log = lake_build([target, "cspuzdriver"])
+        tries = 0
+        while not ok and tries < 3 and not re.search(r"error: \S+\.lean:\d+:\d+", log):
+            # no source-position error: a tooling hiccup (e.g. a concurrent lake run touching the same outputs) -- retry
+            tries += 1
+            time.sleep(2 * tries)
+            ok, log = lake_build([target, "cspuzdriver"])
+        if not ok and not re.search(r"error: \S+\.lean:\d+:\d+", log):
+            print("TOOLING-FAILURE lake build: " + log[-800:], file=sys.stderr)
+            return 2
         if not ok:
             errs = [l for l in log.split("\n") if "error" in l.lower()][:8]
             ctx.broken.append("lake build CspuzModel.Properties.%s failed: %s" % (prop, " | ".join(errs)[:1500]))
